@@ -2,8 +2,29 @@
 
 package machine
 
+import "sync"
+
 // Verification hooks, compiled only with `-tags verif`. Add-only: nothing in
 // this file is referenced by the regular build.
+
+// VerifSched, when set, is called at every schedule point of this machine, on
+// the goroutine that reached it.
+var verifSched sync.Map // *Machine -> func(point string)
+
+// VerifSetSched installs (or removes, with nil) the schedule-point callback.
+func (m *Machine) VerifSetSched(fn func(point string)) {
+	if fn == nil {
+		verifSched.Delete(m)
+		return
+	}
+	verifSched.Store(m, fn)
+}
+
+func verifPoint(m *Machine, point string) {
+	if fn, ok := verifSched.Load(m); ok {
+		fn.(func(string))(point)
+	}
+}
 
 // VerifSetQueueTick overrides the queue tick (used to place the source
 // machine of an RPC server at arbitrary clock snapshots).
